@@ -33,6 +33,15 @@ theorem inflight_chokepoint_gen :
     sitesOf "metrics.decDataMsgInflight" = [("hsms", "connection_send.go", "connection.sendWaitReply")] := by
   decide
 
+/-- **Which failed sends count** (regenerated from hsms `isCountedSendErr`): a failed data send counts as a data-message
+    error unless it is one of exactly four lifecycle / caller outcomes — not-selected (own drop counter), connection
+    closed, caller cancelled, caller deadline — and the predicate consults nothing else (no `Timeout()` probing that would
+    also swallow a write-deadline failure; after seeded C20g-1). -/
+theorem counted_send_errors_gen :
+    Gen.hsms_countedSendErrExclusions =
+      (["ErrNotSelectedState", "ErrConnClosed", "context.Canceled", "context.DeadlineExceeded"], 0) := by
+  decide
+
 /-- the reconnecting gauge is incremented once and decremented once, both in `connectLoop`. -/
 theorem retry_chokepoint_gen :
     sitesOf "metrics.incConnRetry" = [("hsms", "connection_lifecycle.go", "connection.connectLoop")] ∧
